@@ -343,7 +343,7 @@ Proof.
   change (flat_map (fun i => children ps (Some i)) (level ps k)) with (level ps (S k)).
   destruct (level ps k) as [|a l] eqn:E.
   - simpl. symmetry. apply concat_levels_empty. replace (S k) with (k + 1) by lia. apply level_empty_mono. exact E.
-  - simpl. rewrite (IH (S k)). reflexivity.
+  - simpl. do 2 f_equal. exact (IH (S k)).
 Qed.
 
 (* the listing is the concatenation of the first `fuel` levels *)
